@@ -19,32 +19,37 @@ from ..core import viol
 
 ID = "C19"
 LEVEL = "exploration"
-TECHNIQUE = "bounded exhaustive enumeration (data class x n x tau_max x n_pca_modes x n_modes x preprocessing flags x solver) of real OPA fits against explicit lag sums and a scipy generalised-eigenvalue reference"
+TECHNIQUE = "bounded exhaustive enumeration (data class x n x tau_max x n_pca_modes x n_modes x preprocessing flags x solver x provenance of the model object) of real OPA fits against explicit lag sums and a scipy generalised-eigenvalue reference"
 RULE = (
     "full product of data class (white; AR(1) mixture phi in {0.9,0.5,0.1,-0.6} of rank 4; the same plus white noise, rank 6; "
-    "period-16 oscillation plus white noise) x n in {40,80} x tau_max (1..13 for n=40; 1,2,5,13,26 for n=80) x n_pca_modes in 2..rank x "
+    "period-16 oscillation plus white noise; AR mixture under a dominant period-12 cycle of amplitude 3e4, PC variances spanning 1e8..1e10) x n in {40,80} x tau_max (1..13 for n=40; 1,2,5,13,26 for n=80) x n_pca_modes in 2..rank x "
     "n_modes in 1..n_pca_modes x center x standardize x use_coslat x weights (all 16 for n=40 and tau_max in {1,2,5,13}, 4 combinations otherwise) x "
     "solver (full; plus randomized and auto at default flags, n=40, tau_max in {1,5,13}); quick: n=40 tau_max in {1,2,5,13} with 4 flag combinations, "
-    "n=80 tau_max in {2,26} default flags, solver full; a case is non-trivial "
+    "n=80 tau_max in {2,26} default flags, solver full; provenance of the judged object in {fresh, refit = the same OPA object first fitted on another "
+    "realisation (other salt, other length) of the data class} - refit at default flags in quick, at default and coslat+weights flags in thorough; a case is non-trivial "
     "when the fit returned and all clauses (series uncorrelated / equal norm, bi-orthogonality, reported time = trapezoidal lag sum of that "
     "very series, descending, first value = largest generalised eigenvalue over the retained PCs, first series in their span) were "
     "evaluated on non-empty arrays"
 )
 ASSUMPTIONS = [
-    "the four seeded data classes (6 features on a 3x2 lat/lon grid) stand for 'all time-ordered inputs'",
+    "the five seeded data classes (6 features on a 3x2 lat/lon grid) stand for 'all time-ordered inputs'",
     "a lagged autocovariance is sum_t x_t x_{t+tau} / d(tau) with d in {n-tau-1, n-tau, n}; a reported value is accepted if it matches under any of the three",
     "numpy.linalg.svd and scipy.linalg.eigh (generalised symmetric problem) are correct",
     "default sample_name/feature_name (the hard-coded 'sample' in OPA is C07's subject)",
+    "tolerances: 1e-8 (1e-6 randomized), widened to 100*eps*s_1/s_k for the series/pattern clauses and to 1000*eps*s_1/(s_k-s_{k+1}) for the optimality clause (first-order perturbation bounds of the whitening and of the retained PC subspace); at most 1e-5",
+    "tau_max is a constructor argument without public setter, so the refit history varies the data (realisation and length) only",
 ]
-TALLY_KEYS = ("data", "n", "tau_max", "n_pca_modes", "solver")
+TALLY_KEYS = ("data", "prov", "n", "tau_max", "n_pca_modes", "solver")
 TRUSTED = ["statsmodels import shim not used here"]
 
 NLAT, NLON = 3, 2
 P = NLAT * NLON
 LATS = [-60.0, 10.0, 75.0]
 PHIS = (0.9, 0.5, 0.1, -0.6)
-DATA = ("white", "ar_mix", "ar_mix_noise", "osc_noise")
-RANK = {"white": 6, "ar_mix": 4, "ar_mix_noise": 6, "osc_noise": 6}
+DATA = ("white", "ar_mix", "ar_mix_noise", "osc_noise", "cycle_dom")
+RANK = {"white": 6, "ar_mix": 4, "ar_mix_noise": 6, "osc_noise": 6, "cycle_dom": 6}
+N_OTHER = {40: 30, 80: 50}  # length of the data set a refitted object saw first
+EPS = float(np.finfo(float).eps)
 ESTIMATORS = ("n-tau-1", "n-tau", "n")
 
 FLAGS_ALL = [(c, s, cl, w) for c in (True, False) for s in (False, True) for cl in (False, True) for w in (False, True)]
@@ -75,11 +80,13 @@ def cases(tier, seed):
                     solvers = ["full"]
                     if tier == "thorough" and default and n == 40 and tau_max in (1, 5, 13):
                         solvers = ["full", "randomized", "auto"]
+                    refit = default if tier == "quick" else (c, s, cl, w) in (FLAGS_4[0], FLAGS_4[3])
                     for solver in solvers:
-                        for k in range(2, RANK[data] + 1):
-                            for m in range(1, k + 1):
-                                out.append(dict(model="OPA", data=data, n=n, tau_max=tau_max, n_pca_modes=k, n_modes=m, center=c, standardize=s, coslat=cl, weights=w, solver=solver))
-    out.sort(key=lambda c: (c["n"], c["tau_max"], c["n_pca_modes"], c["n_modes"]))  # simplest first (stable)
+                        for prov in (("fresh", "refit") if (refit and solver == "full") else ("fresh",)):
+                            for k in range(2, RANK[data] + 1):
+                                for m in range(1, k + 1):
+                                    out.append(dict(model="OPA", data=data, prov=prov, n=n, tau_max=tau_max, n_pca_modes=k, n_modes=m, center=c, standardize=s, coslat=cl, weights=w, solver=solver))
+    out.sort(key=lambda c: (c["n"], c["tau_max"], c["n_pca_modes"], c["n_modes"], c["prov"] != "fresh"))  # simplest first (stable)
     return out
 
 
@@ -92,9 +99,9 @@ def _ar1(rng, n, phi):
     return x
 
 
-def make_series(data, n, seed):
+def make_series(data, n, seed, salt=0):
     """n x 6 matrix, rows in time order."""
-    rng = np.random.default_rng([int(seed), 19, int(n), DATA.index(data)])
+    rng = np.random.default_rng([int(seed), 19, int(n), DATA.index(data)] + ([int(salt)] if salt else []))
     if data == "white":
         X = rng.standard_normal((n, P))
     elif data in ("ar_mix", "ar_mix_noise"):
@@ -108,16 +115,23 @@ def make_series(data, n, seed):
         S = np.stack([np.sin(2 * np.pi * t / 16.0), np.cos(2 * np.pi * t / 16.0)], axis=1) * 2.0
         A = rng.standard_normal((2, P))
         X = S @ A + rng.standard_normal((n, P))
+    elif data == "cycle_dom":
+        # full-rank O(1) red-noise anomalies under a dominant cycle (a seasonal cycle that was not removed):
+        # leading PC variance 1e8..1e10 times the smallest retained one, every PC far above round-off
+        S = np.stack([_ar1(rng, n, phi) for phi in PHIS], axis=1)
+        X = S @ rng.standard_normal((len(PHIS), P)) + 0.7 * rng.standard_normal((n, P))
+        cyc = np.cos(2 * np.pi * np.arange(n) / 12.0) + 0.3 * rng.standard_normal(n)
+        X = X + 3.0e4 * np.outer(cyc, 0.5 + rng.random(P))
     else:
         raise ValueError(data)
     mu = rng.standard_normal(P) * 3.0
     return X + mu[None, :]
 
 
-def build_input(case, seed):
+def build_input(case, seed, n=None, salt=0):
     import xarray as xr
 
-    X = make_series(case["data"], case["n"], seed)
+    X = make_series(case["data"], n or case["n"], seed, salt)
     da = D.da_grid(X, NLAT, NLON, lats=LATS)
     wvec = wda = None
     if case["weights"]:
@@ -180,12 +194,17 @@ def run_case(case, seed):
         n_modes=nm, tau_max=tmax, n_pca_modes=k, center=case["center"], standardize=case["standardize"], use_coslat=case["coslat"], solver=case["solver"], random_state=5
     )
     V = []
+    feats = dict(prov=case.get("prov", "fresh"))
 
     def bad(check, msg, **features):
-        V.append(viol(check, "OPA", msg, **features))
+        V.append(viol(check, "OPA", msg, **dict(feats, **features)))
 
     with warnings.catch_warnings():
         warnings.simplefilter("ignore")
+        if case.get("prov", "fresh") == "refit":
+            # history fit(D'); fit(D) on ONE object: everything judged below must describe D only
+            _, da0, wda0, _, _ = build_input(case, seed, n=N_OTHER[n], salt=1)
+            model.fit(da0, dim="time", weights=wda0)
         model.fit(da, dim="time", weights=wda)
         sc = model.scores()
         comps = model.components()
@@ -206,7 +225,12 @@ def run_case(case, seed):
     if V:
         return dict(violations=V, outcome="violation", nontrivial=False)
 
-    tol = 1e-8 if case["solver"] == "full" else 1e-6
+    # independent PCA of the independently preprocessed matrix; its spectrum also scales the tolerances
+    Mpre = R.preprocess(X, case["center"], case["standardize"], cl, wvec)
+    Zc = Mpre - Mpre.mean(axis=0, keepdims=True)
+    U, s, _ = R.svd(Zc)
+    tol0 = 1e-8 if case["solver"] == "full" else 1e-6
+    tol = max(tol0, 100 * EPS * s[0] / max(s[k - 1], 1e-300))  # whitening by C0^(-1/2): relative error of the smallest retained PC
 
     # (a) mutually uncorrelated, equal norm
     Sc = S - S.mean(axis=0, keepdims=True)
@@ -249,18 +273,17 @@ def run_case(case, seed):
         bad("descending", "reported decorrelation times not descending: %s" % T)
 
     # (e) optimality over the retained principal components (independent PCA + generalised eigenproblem)
-    Mpre = R.preprocess(X, case["center"], case["standardize"], cl, wvec)
-    Zc = Mpre - Mpre.mean(axis=0, keepdims=True)
-    U, s, _ = R.svd(Zc)
-    decidable = s[k - 1] > 1e-9 * s[0] and (k == len(s) or (s[k - 1] - s[k]) / s[0] >= 1e-3)
+    gap = s[k - 1] - (s[k] if k < len(s) else 0.0)
+    tol_e = max(tol, 1000 * EPS * s[0] / max(gap, 1e-300))  # rotation of the retained PC subspace under rounding
+    decidable = s[k - 1] > 1e-9 * s[0] and tol_e <= 1e-5
     lam_max = lam_min = None
     if decidable:
         Z = U[:, :k]
         eigs = [gen_eigs(Z, tmax, est) for est in ESTIMATORS]
         lam_max = [float(w[-1]) for w in eigs]
         lam_min = [float(w[0]) for w in eigs]
-        if not _close_any(T[0], lam_max, tol):
-            absmin = _close_any(-T[0], lam_min, tol) and lam_min[0] < 0
+        if not _close_any(T[0], lam_max, tol_e):
+            absmin = _close_any(-T[0], lam_min, tol_e) and lam_min[0] < 0
             bad(
                 "first_is_maximal",
                 "first reported time %.6f; largest generalised eigenvalue over the %d retained PCs %.6f / %.6f / %.6f, smallest %.6f (tau_max=%d)" % (T[0], k, lam_max[0], lam_max[1], lam_max[2], lam_min[0], tmax),
@@ -270,10 +293,10 @@ def run_case(case, seed):
         x = S[:, 0]
         r = x - Z @ (Z.T @ x)
         e = np.linalg.norm(r) / max(np.linalg.norm(x), 1e-300)
-        if not e <= tol:
+        if not e <= tol_e:
             bad("first_in_pc_span", "relative residual of the first series outside the retained PCs = %.3e" % e)
 
-    info = dict(min_own=float(own[:, 0].min()), max_own=float(own[:, 0].max()), decidable=bool(decidable))
+    info = dict(min_own=float(own[:, 0].min()), max_own=float(own[:, 0].max()), decidable=bool(decidable), cond=float((s[0] / max(s[k - 1], 1e-300)) ** 2))
     if not decidable:
         return dict(violations=V, outcome="violation" if V else "skipped:pca_cut_in_cluster", nontrivial=False, info=info)
     return dict(violations=V, outcome="violation" if V else "ok", nontrivial=S.size > 0 and W.size > 0 and T.size > 0, info=info)
@@ -286,7 +309,9 @@ def finalize(cases_, results, tier, seed):
     neg = sum(1 for r in results if r.get("info", {}).get("min_own", 1.0) < 0)
     small = sum(1 for r in results if r.get("info", {}).get("min_own", 1.0) < 0.5)
     large = sum(1 for r in results if r.get("info", {}).get("max_own", 0.0) > 1.0)
-    return [], dict(cases_with_negative_own_sum=neg, cases_with_own_sum_below_half=small, cases_with_own_sum_above_one=large)
+    illc = sum(1 for r in results if 1e8 <= r.get("info", {}).get("cond", 0.0) <= 1e10)
+    refit = sum(1 for c in cases_ if c.get("prov") == "refit")
+    return [], dict(cases_with_pc_variance_ratio_1e8_to_1e10=illc, cases_refit_on_same_object=refit, cases_with_negative_own_sum=neg, cases_with_own_sum_below_half=small, cases_with_own_sum_above_one=large)
 
 
 def vacuity(outcomes, results, tier):
@@ -298,6 +323,8 @@ def vacuity(outcomes, results, tier):
         return "no series with a decorrelation sum below 1/2 (anti-persistent end of the alphabet not reached)"
     if not any(i["max_own"] > 1.0 for i in infos):
         return "no series with a decorrelation sum above 1 (persistent end of the alphabet not reached)"
+    if not any(1e8 <= i.get("cond", 0.0) <= 1e10 for i in infos):
+        return "no case with retained PC variances spanning 1e8..1e10"
     if outcomes.get("skipped:pca_cut_in_cluster", 0) > 0.1 * len(results):
         return "optimality clause undecidable on more than 10% of the cases"
     return None
